@@ -19,6 +19,7 @@ func init() {
 			{Name: "ihave-seen-not-skipped", File: "gossipsub.go", Old: "\t\t\tif gs.p.seenMessage(mid) {\n\t\t\t\tcontinue\n\t\t\t}\n\t\t\tiwant[mid] = struct{}{}", New: "\t\t\tif gs.p.seenMessage(mid) && len(iwant) > 0 {\n\t\t\t\tcontinue\n\t\t\t}\n\t\t\tiwant[mid] = struct{}{}", Expect: "B4"},
 			{Name: "ihave-promise-before-truncate", File: "gossipsub.go", Old: "\tiwantlst = iwantlst[:iask]\n\tgs.iasked[p] += iask\n\n\tgs.gossipTracer.AddPromise(p, iwantlst)\n", New: "\tgs.gossipTracer.AddPromise(p, iwantlst)\n\tiwantlst = iwantlst[:iask]\n\tgs.iasked[p] += iask\n", Expect: "B5"},
 			{Name: "ihave-budget-not-charged", File: "gossipsub.go", Old: "\tiwantlst = iwantlst[:iask]\n\tgs.iasked[p] += iask\n", New: "\tiwantlst = iwantlst[:iask]\n\tgs.iasked[p] = iask\n", Expect: "B5"},
+			{Name: "cache-put-twice-two-entries", File: "mcache.go", Old: "\tif _, ok := mc.msgs[mid]; ok {\n", New: "\tif _, ok := mc.msgs[mid]; ok && len(mc.history) == 0 {\n", Expect: "B18"},
 			{Name: "dropped-iwant-keeps-promise", File: "gossip_tracer.go", Old: "\t\t\tif promises, ok := gt.promises[mid]; ok {\n\t\t\t\tdelete(promises, p)\n", New: "\t\t\tif promises, ok := gt.promises[mid]; ok && len(promises) > 1 {\n\t\t\t\tdelete(gt.peerPromises[p], mid)\n", Expect: "B17"},
 			{Name: "drop-not-traced", File: "gossipsub.go", Old: "func (gs *GossipSubRouter) doDropRPC(rpc *RPC, p peer.ID, reason string) {\n", New: "func (gs *GossipSubRouter) doDropRPC(rpc *RPC, p peer.ID, reason string) {\n\tif len(rpc.GetPublish()) == 0 && rpc.GetControl().GetIwant() != nil {\n\t\treturn\n\t}\n", Expect: "B17"},
 			{Name: "iwant-unwanted-served", File: "gossipsub.go", Old: "\t\t\tif _, ok := gs.unwanted[p][computeChecksum(mid)]; ok {\n\t\t\t\tcontinue\n\t\t\t}\n\n\t\t\tmsg, count, ok := gs.mcache.GetForPeer(mid, p)", New: "\t\t\tmsg, count, ok := gs.mcache.GetForPeer(mid, p)", Expect: "B6"},
@@ -802,7 +803,10 @@ func runC17(c *RuleCtx) {
 			}
 			return false
 		}
-		ttlElem := func(v *V) bool { return v != nil && v.Kind == "index" && isInnerMap(v.Args[0]) }
+		ttlElem := func(v *V) bool {
+			// mids[mid] — which, inside `for mid := range mids`, is canonically the range value of mids
+			return v != nil && (v.Kind == "index" || v.Kind == "rangeval") && len(v.Args) > 0 && isInnerMap(v.Args[0])
+		}
 		isTTL := func(v *V) bool { return ttlElem(v) || ttlVar(v) }
 		expired := AtomCmp("ttl <= 0", isTTL, "<=", isZero)
 		edges := g.AtomEdges(expired, true)
@@ -1076,6 +1080,7 @@ func runC17(c *RuleCtx) {
 		}
 	}
 	checkDroppedIWantVoidsPromise(c)
+	checkCacheSingleEntry(c)
 	c.Min["B1"] = 5
 	c.Min["B2"] = 4
 	c.Min["B3"] = 1
@@ -1351,4 +1356,67 @@ func checkDroppedIWantVoidsPromise(c *RuleCtx) {
 		c.Check(ok, "B17", d.Name, "every drop is reported to the tracers", d.Decl, why, "doDropRPC can return without tracer.DropRPC: "+why)
 	}
 	c.Min["B17"] = 2
+}
+
+// B18: Shift drops a message together with the history entries of the expiring slot, so "retrievable for
+// HistoryLength heartbeats" after a forward needs every cached id to have at most one history entry (C17's
+// quantifier names "for the message cache alone every sequence of put / get / shift operations", which includes
+// putting one message twice). Put either finds the id absent, or on the present edge removes the older entry
+// (a store into mc.history other than the final append) or leaves without appending.
+func checkCacheSingleEntry(c *RuleCtx) {
+	p := c.P
+	f := c.MustFn("B18", "(*MessageCache).Put")
+	if f == nil {
+		return
+	}
+	g := p.Graph(f)
+	present := AtomLookupOK("id already cached", isFieldOf("MessageCache.msgs"), nil)
+	var appendStmt ast.Node
+	for _, s := range p.StoresTo2(f, "MessageCache.history") {
+		if s.RHS != nil {
+			if v := p.R(f).Val(s.RHS); v != nil && v.Kind == "call" && (v.Name == "builtin.append" || v.Name == "append") {
+				appendStmt = s.Node
+			}
+		}
+	}
+	if appendStmt == nil {
+		c.Undecided("B18", f.Name, "history append", f.Decl, "Put does not append to mc.history (anchor drift)")
+		return
+	}
+	// the removal: a store into mc.history other than the final append, or the loop over the slots that contains it
+	// (a range over the slots runs zero times only for an empty history, which holds no entry to remove)
+	removes := func(n ast.Node) bool {
+		if _, isRet := n.(*ast.ReturnStmt); isRet {
+			return true
+		}
+		for _, s := range p.StoresTo2(f, "MessageCache.history") {
+			if s.Node == appendStmt {
+				continue
+			}
+			if contains(n, s.Node) {
+				return true
+			}
+			for _, l := range p.EnclosingLoops(s.Node) {
+				if r, isRange := l.(*ast.RangeStmt); isRange && (n == ast.Node(r.X) || contains(n, r.X)) && p.R(f).Val(r.X).IsField("MessageCache.history") {
+					return true
+				}
+			}
+		}
+		return false
+	}
+	// every path to the append that does not refute "already cached" passes the removal
+	ok := len(g.AtomEdges(present, true))+len(g.AtomEdges(present, false)) > 0
+	why := "every path that does not refute `id already cached` removes the older history entry (or appends nothing)"
+	if ok {
+		cut := cutSet{}
+		for _, e := range g.AtomEdges(present, false) {
+			cut[e] = true
+		}
+		ap, _ := g.Locate(appendStmt)
+		if g.ReachableFrom(g.Entry(), ap, cut, removes) {
+			ok = false
+		}
+	}
+	c.Check(ok, "B18", f.Name, "one history entry per cached id", appendStmt, why, "Put appends a history entry without looking whether the id is already cached: a message put twice has two entries, Shift deletes it (and its per-peer counts) when the older one expires, and it is unretrievable fewer than HistoryLength heartbeats after it was last forwarded while GetGossipIDs still advertises it")
+	c.Min["B18"] = 1
 }
